@@ -203,14 +203,12 @@ impl WdlParser {
             {
                 file.version = WdlVersion::Legion;
             }
-            // If we have WMO chunks, it's pre-Legion
+            // If we have WMO chunks, it's pre-Legion. Only WotLK..WoD carry MWMO/MWID/MODF
+            // (`WdlVersion::Vanilla.has_wmo_chunks()` is false), so a file with these chunks is
+            // WotLK-class whether or not any tile has a MAHO chunk; answering Vanilla here made
+            // `write` drop the three chunks again.
             else if mwmo_index.is_some() || mwid_index.is_some() || modf_index.is_some() {
-                // Check for MAHO to distinguish WotLK+ from Vanilla
-                if file.chunks.iter().any(|c| c.magic == MAHO_MAGIC) {
-                    file.version = WdlVersion::Wotlk;
-                } else {
-                    file.version = WdlVersion::Vanilla;
-                }
+                file.version = WdlVersion::Wotlk;
             }
             // Otherwise keep the parser's version
         }
